@@ -28,7 +28,12 @@ class OperatorAdd(OperatorBase):
     
     def operate_unary(self, tokens):
         left, right = tokens.get_left(), tokens.get_right()
-        if left is None and isinstance(right, tokens.atom):
+        if isinstance(left, tokens.atom) and isinstance(right, (OperatorAdd, OperatorSub)):
+            # binary operator followed by a sign: the sign belongs to the next atom
+            tokens.put_left(left)
+            tokens.put_left(OperatorAdd())
+            tokens.put_right(right)
+        elif left is None and isinstance(right, tokens.atom):
             tokens.put_left(right)        
         elif isinstance(right, OperatorAdd):
             tokens.put_left(left)
@@ -54,7 +59,12 @@ class OperatorSub(OperatorBase):
     
     def operate_unary(self, tokens):
         left, right = tokens.get_left(), tokens.get_right()
-        if left is None and isinstance(right, tokens.atom):
+        if isinstance(left, tokens.atom) and isinstance(right, (OperatorAdd, OperatorSub)):
+            # binary operator followed by a sign: the sign belongs to the next atom
+            tokens.put_left(left)
+            tokens.put_left(OperatorSub())
+            tokens.put_right(right)
+        elif left is None and isinstance(right, tokens.atom):
             tokens.put_left(-right)
         elif isinstance(right, OperatorAdd):
             tokens.put_left(left)
